@@ -62,7 +62,7 @@ class Engine:
         path_manager = create_path(
             self.configuration, self.coupling_process.fine_process.deterministic_path
         )
-        self.path_managers.append(path_manager)
+        self.path_managers = [path_manager]
         self.coupling_process.pre_computation(
             mc_paths=self.configuration.initial_mc_paths, product=product
         )
